@@ -214,6 +214,14 @@ impl MdnsResponse {
     }
 }
 
+#[cfg(libp2p_verif)]
+impl MdnsResponse {
+    /// Verification-only accessor for the decoded peers.
+    pub(crate) fn verif_peers(&self) -> &[MdnsPeer] {
+        &self.peers
+    }
+}
+
 impl fmt::Debug for MdnsResponse {
     fn fmt(&self, f: &mut fmt::Formatter<'_>) -> fmt::Result {
         f.debug_struct("MdnsResponse")
